@@ -73,9 +73,10 @@ type vEstRC struct {
 }
 
 type vEstEnv struct {
-	made   map[string]int // region clients created per address
-	all    []*vEstRC
-	probes int
+	made       map[string]int // region clients created per address
+	all        []*vEstRC
+	probes     int
+	retryLater int // the next so many probes are answered "retry later"
 }
 
 func (r *vEstRC) Dial(ctx context.Context) error {
@@ -91,6 +92,12 @@ func (r *vEstRC) QueueRPC(c hrpc.Call) {
 	verifYield()
 	verifJitter()
 	r.env.probes++
+	if r.env.retryLater > 0 {
+		// the region is still opening / the call queue is full: a healthy connection says "retry later"
+		r.env.retryLater--
+		c.ResultChan() <- hrpc.RPCResult{Error: region.RetryableError{}}
+		return
+	}
 	c.ResultChan() <- hrpc.RPCResult{} // the probe is answered: region online
 }
 func (r *vEstRC) QueueBatch(ctx context.Context, cs []hrpc.Call) {}
@@ -203,4 +210,27 @@ func VerifLateFailureReport() {
 	verifAssert(made == 2, "no further connection is opened: the failure report concerned the connection that was already replaced")
 	verifAssert(reg.Client() == hrpc.RegionClient(conns[1]), "the healthy replacement stays the region's connection")
 	verifReach("late-report")
+}
+
+// VerifSharedClientSpellings: two regions hosted at the same address - whatever its spelling
+// (upper case, IPv6 brackets, blanks, trailing dot) - get one real region client: the client
+// cache asked twice for the same address string builds one client and hands it out twice.
+// (Both sites are real: region.NewClient and clientRegionCache.put; nothing is dialled.)
+func VerifSharedClientSpellings() {
+	c := vNewRootClient()
+	addr := []string{"rs1:16020", "RS-1.Example.COM:16020", "[::1]:16020", "10.0.0.1:16020", " rs1:16020 ", "rs1.:16020"}[verifChoose(6)]
+	made := 0
+	mk := func() hrpc.RegionClient {
+		made++
+		return region.NewClient(addr, region.RegionClient, 2, 0, "user", 0, nil, nil, vLogger())
+	}
+	ra, rb := vMkRegion(0, 1, nil, []byte("m")), vMkRegion(0, 2, []byte("m"), nil)
+	c1 := c.clients.put(addr, ra, mk)
+	c2 := c.clients.put(addr, rb, mk)
+	verifAssert(c1 == c2 && made == 1, "two regions at one address share one region client")
+	other := c.clients.put("rs2:16020", vMkRegion(1, 3, nil, nil), func() hrpc.RegionClient {
+		return region.NewClient("rs2:16020", region.RegionClient, 2, 0, "user", 0, nil, nil, vLogger())
+	})
+	verifAssert(other != c1, "another address gets its own region client")
+	verifReach("shared")
 }
